@@ -327,6 +327,18 @@ def _finder_shape(h: FuncInfo, skip: int):
 
 def _literal_table(model: Model, fi: FuncInfo, e: ast.AST, items: bool) -> Optional[List[Tuple[ast.AST, ast.AST]]]:
     """[(constant key, value expression)] in literal order"""
+    if isinstance(e, ast.Attribute) and isinstance(e.value, ast.Name) and fi.cls is not None and fi.pos_params and e.value.id == fi.pos_params[0]:
+        # a class-level literal read through self, that nothing in the package writes
+        lit = fi.cls.class_assigns.get(e.attr)
+        if lit is None:
+            return None
+        for f in model.funcs.values():
+            for n in own_nodes(f):
+                if isinstance(n, ast.Attribute) and n.attr == e.attr and isinstance(n.ctx, (ast.Store, ast.Del)):
+                    return None
+        e = lit
+        if not all(isinstance(v, ast.Constant) for v in (e.values if isinstance(e, ast.Dict) else [x for p in getattr(e, "elts", []) if isinstance(p, (ast.Tuple, ast.List)) for x in p.elts])):
+            return None
     if isinstance(e, ast.Name):
         # a module-level literal that nothing in the package writes
         lit = fi.module.assigns.get(e.id)
@@ -445,17 +457,17 @@ def _inline_returned_helpers(model: Model, fi: FuncInfo, body: List[ast.stmt]) -
         for st in stmts:
             cur = st
             for _ in range(4):
+                if isinstance(cur, ast.Return) and _classified_dispatch(model, fi, cur, set(all_names)) is not None:
+                    break  # read as a whole by the inliner
                 if isinstance(cur, (ast.Return, ast.Expr, ast.Assign, ast.AugAssign)):
                     holder, fld = cur, "value"
-                elif isinstance(cur, ast.If):
-                    holder, fld = cur, "test"
                 else:
-                    break
+                    break  # (tests of if statements keep their predicate calls: rules read those as guards)
                 e = getattr(holder, fld)
                 if e is None:
                     break
                 first = next(_eval_order(e), None)
-                if not isinstance(first, ast.Call) or first is e and not isinstance(cur, ast.If):
+                if not isinstance(first, ast.Call) or first is e:
                     break
                 got = _resolve_helper(model, fi, first)
                 if got is None or not got[0].is_private or got[0] is fi or got[0].name in _KEEP or isinstance(got[0].node, ast.Lambda):
@@ -508,6 +520,11 @@ def _inline_returned_helpers(model: Model, fi: FuncInfo, body: List[ast.stmt]) -
                     skip_next = True
                     continue
             if isinstance(st, ast.Return):
+                rep = _classified_dispatch(model, fi, st, all_names)
+                if rep is not None:
+                    out.extend(block(rep))
+                    changed = True
+                    continue
                 rep = _tail_helper_body(model, fi, [st], all_names)
                 if rep is not None:
                     out.extend(rep)
@@ -625,6 +642,73 @@ def _is_first_non_none_pair(st, nxt) -> bool:
         return False
     t = nxt.test
     return isinstance(t, ast.Compare) and len(t.ops) == 1 and isinstance(t.ops[0], ast.IsNot) and isinstance(t.left, ast.Name) and t.left.id == x and _is_none(t.comparators[0])
+
+
+def _classified_dispatch(model: Model, fi: FuncInfo, st: ast.Return, all_names) -> Optional[List[ast.stmt]]:
+    """return getattr(self, "prefix_" + self._kind(x))(args) where _kind is a private helper every return of which is a
+    string constant: the helper's statements with `return "k"` replaced by `return self.prefix_k(args)`"""
+    v = st.value
+    if not (isinstance(v, ast.Call) and isinstance(v.func, ast.Call) and isinstance(v.func.func, ast.Name) and v.func.func.id == "getattr" and len(v.func.args) == 2 and not v.func.keywords):
+        return None
+    recv, name_e = v.func.args
+    if not (isinstance(recv, ast.Name) and fi.pos_params and recv.id == fi.pos_params[0]):
+        return None
+    prefix = suffix = ""
+    inner = None
+    if isinstance(name_e, ast.BinOp) and isinstance(name_e.op, ast.Add) and isinstance(name_e.left, ast.Constant) and isinstance(name_e.left.value, str) and isinstance(name_e.right, ast.Call):
+        prefix, inner = name_e.left.value, name_e.right
+    elif isinstance(name_e, ast.JoinedStr):
+        parts = name_e.values
+        calls = [p_ for p_ in parts if isinstance(p_, ast.FormattedValue)]
+        if len(calls) != 1 or calls[0].format_spec is not None or calls[0].conversion not in (-1, None) or not isinstance(calls[0].value, ast.Call):
+            return None
+        i = parts.index(calls[0])
+        if not all(isinstance(p_, ast.Constant) for p_ in parts[:i] + parts[i + 1:]):
+            return None
+        prefix = "".join(p_.value for p_ in parts[:i])
+        suffix = "".join(p_.value for p_ in parts[i + 1:])
+        inner = calls[0].value
+    elif isinstance(name_e, ast.Call):
+        inner = name_e
+    if inner is None:
+        return None
+    got = _resolve_helper(model, fi, inner)
+    if got is None or not got[0].is_private or got[0] is fi:
+        return None
+    rets = [x for x in ast.walk(got[0].node) if isinstance(x, ast.Return)]
+    if not rets or not all(isinstance(r_.value, ast.Constant) and isinstance(r_.value.value, str) for r_ in rets):
+        return None
+    if any(isinstance(x, (ast.Call,)) and not isinstance(x.func, (ast.Name, ast.Attribute)) for a_ in v.args for x in ast.walk(a_)) or v.keywords:
+        return None
+    pseudo = ast.copy_location(ast.Return(value=inner), st)
+    saved = _KEEP
+    body = _tail_helper_body(model, fi, [pseudo], all_names)
+    if body is None:
+        return None
+    if not all((prefix + r_.value.value + suffix).isidentifier() for r_ in rets):
+        return None
+
+    class _K(ast.NodeTransformer):
+        def visit_Return(self, n: ast.Return):
+            if isinstance(n.value, ast.Constant) and isinstance(n.value.value, str):
+                call = ast.Call(func=ast.Attribute(value=ast.Name(id=recv.id, ctx=ast.Load()), attr=prefix + n.value.value + suffix, ctx=ast.Load()), args=[clone_ast(a_) for a_ in v.args], keywords=[])
+                new = ast.copy_location(ast.Return(value=call), st)
+                ast.fix_missing_locations(new)
+                return new
+            return n
+
+        def visit_FunctionDef(self, n):
+            return n
+
+        def visit_Lambda(self, n):
+            return n
+
+    out = []
+    for b in body:
+        nb = _K().visit(b)
+        nb._fresh = True  # type: ignore
+        out.append(nb)
+    return out
 
 
 def _assign_conv(stmts: List[ast.stmt], target: ast.expr, at: ast.stmt) -> Optional[List[ast.stmt]]:
